@@ -168,3 +168,208 @@ fn c08_rule_pattern_simple() {
 fn c08_rule_pattern_anyof() {
     pattern_kernel(true);
 }
+
+// ---------------------------------------------------------------------------------------------- C08.order
+// rmp-serde encodes structs positionally, so the field ORDER of a serialize-side struct and of its
+// deserialize-side twin is part of the format. The derived impls announce their field lists to any serde
+// back end: a recording Serializer / Deserializer (below) captures both lists, and the kernel asserts that they
+// agree position by position (names compared without a leading '_', which the read side uses for ignored fields).
+mod order {
+    use serde::de::{self, Deserializer, Visitor};
+    use serde::ser::{self, Impossible, Serialize, SerializeStruct, Serializer};
+    use std::fmt;
+
+    pub const MAXF: usize = 28;
+    pub struct Rec {
+        pub names: [&'static str; MAXF],
+        pub n: usize,
+    }
+    impl Rec {
+        pub fn new() -> Self {
+            Rec { names: [""; MAXF], n: 0 }
+        }
+        fn push(&mut self, s: &'static str) {
+            if self.n < MAXF {
+                self.names[self.n] = s;
+            }
+            self.n += 1;
+        }
+    }
+    #[derive(Debug)]
+    pub struct Stop;
+    impl fmt::Display for Stop {
+        fn fmt(&self, _f: &mut fmt::Formatter<'_>) -> fmt::Result {
+            Ok(())
+        }
+    }
+    impl std::error::Error for Stop {}
+    impl ser::Error for Stop {
+        fn custom<T: fmt::Display>(_msg: T) -> Self {
+            Stop
+        }
+    }
+    impl de::Error for Stop {
+        fn custom<T: fmt::Display>(_msg: T) -> Self {
+            Stop
+        }
+    }
+
+    pub struct RecSer<'r>(pub &'r mut Rec);
+    pub struct RecStruct<'r>(&'r mut Rec);
+    impl<'r> SerializeStruct for RecStruct<'r> {
+        type Ok = ();
+        type Error = Stop;
+        fn serialize_field<T: ?Sized + Serialize>(&mut self, key: &'static str, _value: &T) -> Result<(), Stop> {
+            self.0.push(key);
+            Ok(())
+        }
+        fn end(self) -> Result<(), Stop> {
+            Ok(())
+        }
+    }
+    macro_rules! refuse {
+        ($($m:ident($($t:ty),*);)*) => { $(fn $m(self $(, _: $t)*) -> Result<(), Stop> { Err(Stop) })* };
+    }
+    impl<'r> Serializer for RecSer<'r> {
+        type Ok = ();
+        type Error = Stop;
+        type SerializeSeq = Impossible<(), Stop>;
+        type SerializeTuple = Impossible<(), Stop>;
+        type SerializeTupleStruct = Impossible<(), Stop>;
+        type SerializeTupleVariant = Impossible<(), Stop>;
+        type SerializeMap = Impossible<(), Stop>;
+        type SerializeStruct = RecStruct<'r>;
+        type SerializeStructVariant = Impossible<(), Stop>;
+        refuse! {
+            serialize_bool(bool); serialize_i8(i8); serialize_i16(i16); serialize_i32(i32); serialize_i64(i64);
+            serialize_u8(u8); serialize_u16(u16); serialize_u32(u32); serialize_u64(u64); serialize_f32(f32); serialize_f64(f64);
+            serialize_char(char); serialize_str(&str); serialize_bytes(&[u8]); serialize_none(); serialize_unit(); serialize_unit_struct(&'static str);
+            serialize_unit_variant(&'static str, u32, &'static str);
+        }
+        fn serialize_some<T: ?Sized + Serialize>(self, _v: &T) -> Result<(), Stop> {
+            Err(Stop)
+        }
+        fn serialize_newtype_struct<T: ?Sized + Serialize>(self, _n: &'static str, _v: &T) -> Result<(), Stop> {
+            Err(Stop)
+        }
+        fn serialize_newtype_variant<T: ?Sized + Serialize>(self, _n: &'static str, _i: u32, _v: &'static str, _x: &T) -> Result<(), Stop> {
+            Err(Stop)
+        }
+        fn serialize_seq(self, _l: Option<usize>) -> Result<Self::SerializeSeq, Stop> {
+            Err(Stop)
+        }
+        fn serialize_tuple(self, _l: usize) -> Result<Self::SerializeTuple, Stop> {
+            Err(Stop)
+        }
+        fn serialize_tuple_struct(self, _n: &'static str, _l: usize) -> Result<Self::SerializeTupleStruct, Stop> {
+            Err(Stop)
+        }
+        fn serialize_tuple_variant(self, _n: &'static str, _i: u32, _v: &'static str, _l: usize) -> Result<Self::SerializeTupleVariant, Stop> {
+            Err(Stop)
+        }
+        fn serialize_map(self, _l: Option<usize>) -> Result<Self::SerializeMap, Stop> {
+            Err(Stop)
+        }
+        fn serialize_struct(self, _n: &'static str, _l: usize) -> Result<RecStruct<'r>, Stop> {
+            Ok(RecStruct(self.0))
+        }
+        fn serialize_struct_variant(self, _n: &'static str, _i: u32, _v: &'static str, _l: usize) -> Result<Self::SerializeStructVariant, Stop> {
+            Err(Stop)
+        }
+    }
+
+    pub struct RecDe<'r>(pub &'r mut Rec);
+    impl<'de, 'r> Deserializer<'de> for RecDe<'r> {
+        type Error = Stop;
+        fn deserialize_any<V: Visitor<'de>>(self, _v: V) -> Result<V::Value, Stop> {
+            Err(Stop)
+        }
+        fn deserialize_struct<V: Visitor<'de>>(self, _name: &'static str, fields: &'static [&'static str], _v: V) -> Result<V::Value, Stop> {
+            let mut i = 0;
+            while i < fields.len() {
+                self.0.push(fields[i]);
+                i += 1;
+            }
+            Err(Stop)
+        }
+        serde::forward_to_deserialize_any! {
+            bool i8 i16 i32 i64 u8 u16 u32 u64 f32 f64 char str string bytes byte_buf option unit unit_struct newtype_struct seq tuple
+            tuple_struct map enum identifier ignored_any
+        }
+    }
+    pub fn same_name(a: &str, b: &str) -> bool {
+        let (a, b) = (a.as_bytes(), b.as_bytes());
+        let a = if a.len() > 0 && a[0] == b'_' { &a[1..] } else { a };
+        let b = if b.len() > 0 && b[0] == b'_' { &b[1..] } else { b };
+        if a.len() != b.len() {
+            return false;
+        }
+        let mut i = 0;
+        while i < a.len() {
+            if a[i] != b[i] {
+                return false;
+            }
+            i += 1;
+        }
+        true
+    }
+}
+
+/// per-rule wire struct: write side and read side list the same fields in the same order
+#[kani::proof]
+#[kani::unwind(30)]
+fn c08_order_rule() {
+    use serde::{Deserialize, Serialize};
+    let mut dr = crate::verif_shim::Draw::new();
+    let i: usize = dr.usize();
+    let nf = blank(NetworkFilterMask::DEFAULT_OPTIONS);
+    let ser: NetworkFilterV0SerializeFmt<'_> = (&nf).into();
+    let mut w = order::Rec::new();
+    let _ = ser.serialize(order::RecSer(&mut w));
+    let mut r = order::Rec::new();
+    let _ = NetworkFilterV0DeserializeFmt::deserialize(order::RecDe(&mut r));
+    assert!(w.n == r.n && w.n >= 1 && w.n <= order::MAXF, "P:order.rule.same_number_of_fields");
+    kani::assume(i < w.n && i < order::MAXF);
+    assert!(order::same_name(w.names[i], r.names[i]), "P:order.rule.same_field_at_every_position");
+    kani::cover!(i == 12, "W:order.rule.last_field");
+    core::mem::forget(nf);
+}
+
+/// top-level format struct: the write side (SerializeFormat) and the read side (DeserializeFormat) list the same
+/// sections in the same order — a swap would load e.g. the exception list as the important list.
+#[kani::proof]
+#[kani::unwind(30)]
+#[kani::stub(std::hash::RandomState::new, crate::verif_shim::stub_random_state_new)]
+#[kani::stub(std::time::Instant::now, crate::verif_shim::stub_instant_now)]
+fn c08_order_format() {
+    use serde::{Deserialize, Serialize};
+    let mut dr = crate::verif_shim::Draw::new();
+    let i: usize = dr.usize();
+    let blocker = Blocker {
+        csp: Default::default(),
+        exceptions: Default::default(),
+        importants: Default::default(),
+        redirects: Default::default(),
+        removeparam: Default::default(),
+        filters_tagged: Default::default(),
+        filters: Default::default(),
+        generic_hide: Default::default(),
+        tags_enabled: Default::default(),
+        tagged_filters_all: vec![],
+        enable_optimizations: false,
+        regex_manager: Default::default(),
+    };
+    let cfc = CosmeticFilterCache::new();
+    let fmt = SerializeFormat::from((&blocker, &cfc));
+    let mut w = order::Rec::new();
+    let _ = Serialize::serialize(&fmt, order::RecSer(&mut w));
+    let mut r = order::Rec::new();
+    let _ = <DeserializeFormat as Deserialize>::deserialize(order::RecDe(&mut r));
+    assert!(w.n == r.n && w.n >= 1 && w.n <= order::MAXF, "P:order.format.same_number_of_sections");
+    kani::assume(i < w.n && i < order::MAXF);
+    assert!(order::same_name(w.names[i], r.names[i]), "P:order.format.same_section_at_every_position");
+    kani::cover!(i == 1, "W:order.format.second_section");
+    core::mem::forget(fmt);
+    core::mem::forget(blocker);
+    core::mem::forget(cfc);
+}
